@@ -874,7 +874,7 @@ func TestPipeline(t *testing.T) {
 		Rule: "a sampler from the grammar {AlwaysSample, NeverSample, TraceIDRatioBased(r), ParentBased(root, 0..4 options, nested to depth 2), Scripted(Drop/RecordOnly/RecordAndSample + attributes + parent/replaced/empty tracestate), none configured}, every node behind a recording decorator; " +
 			"a program of 1..40 steps {start root, start child of a started span, start under a supplied span context (remote or local, valid / zero trace ID / zero span ID, sampled or not, extra flag bits, tracestate), each optionally WithNewRoot, end a span}; simple processor (or WithSyncer) + in-memory exporter; default or custom sequential ID generator; " +
 			"non-trivial = some span is the child of a started span and at least two different sampling decisions occur; distinct = distinct case encodings",
-		Quick: 8000, Thorough: 100000,
+		Quick: 6000, Thorough: 100000,
 		Gen: genPipe, Run: runPipe,
 	})
 }
